@@ -27,6 +27,7 @@ import time
 from pathlib import Path
 
 from common import PY, REPO, setup_repo_import
+from lib import c17ext
 
 ID = "C17"
 GENS = ["c17_levels"]
@@ -142,9 +143,10 @@ SHRINK_LEVELS = [20, 30, 10, 40, 5, 50, 25]
 class _Capture(logging.Filter):
     """sees every LogRecord before the handlers; optionally pins the timestamp"""
 
-    def __init__(self, plan):
+    def __init__(self, plan, tz_of):
         super().__init__()
         self.plan = plan
+        self.tz_of = tz_of
         self.i = 0
         self.out = []
 
@@ -155,7 +157,8 @@ class _Capture(logging.Filter):
             record.created = call["created"]
         exc_text = logging.Formatter().formatException(record.exc_info) if record.exc_info else None
         self.out.append({"created": record.created, "line": f"{record.pathname}:{record.lineno}",
-                         "func": record.funcName, "exc_text": exc_text, "levelname": record.levelname})
+                         "func": record.funcName, "exc_text": exc_text, "levelname": record.levelname,
+                         "attrs": c17ext.attrs_of(record, self.tz_of())})
         return True
 
 
@@ -179,9 +182,13 @@ class Env:
         self.glog = glog
         self.hr = hr
         self.host = socket.gethostname()
-        self.tz = datetime.timezone(datetime.timedelta(seconds=time.localtime().tm_gmtoff))
         self.root = Path(tempfile.mkdtemp(prefix="c17-", dir=os.environ.get("VERIF_TMP") or None))
         self.n = 0
+
+    @property
+    def tz(self):
+        """the zone the writer stamps records with (`gallia.log.tz`, fixed at import; the second layer varies it)"""
+        return self.glog.tz
 
     def close(self):
         shutil.rmtree(self.root, ignore_errors=True)
@@ -197,7 +204,7 @@ class Env:
         parent = glog.get_logger(LOGGER)
         parent.setLevel(1)
         parent.propagate = False
-        cap = _Capture(calls)
+        cap = _Capture(calls, lambda: glog.tz)
         child = glog.get_logger(LOGGER + ".sub")
         logging.disable(logging.NOTSET)
         try:
@@ -240,7 +247,7 @@ class Env:
                 "_iso": datetime.datetime.fromtimestamp(k["created"], self.tz).isoformat(),
                 "_created": k["created"],
             })
-        return Log(self, d, path, expected, len(cap.out))
+        return Log(self, d, path, expected, len(cap.out), [k["attrs"] for k in cap.out])
 
     # -- model -------------------------------------------------------------------------------------------
     def model_lines(self, expected):
@@ -253,13 +260,14 @@ class Env:
 
 
 class Log:
-    def __init__(self, env, d, zst_path, expected, n_seen):
+    def __init__(self, env, d, zst_path, expected, n_seen, attrs=None):
         import zstandard
 
         self.env = env
         self.dir = d
         self.expected = expected
         self.n_seen = n_seen
+        self.attrs = attrs or []  # what _JSONFormatter.format reads from every LogRecord (the model's LogRec)
         with open(zst_path, "rb") as f:
             self.raw = {1: zstandard.ZstdDecompressor().stream_reader(f).read()}
         lines = self.raw[1].split(b"\n")
@@ -1041,6 +1049,17 @@ def run(ctx):
             a = rng.choice([0, 1, n, n + 1, 100])
             go(calls, [("stdin", i % 2, m, a, rng.choice([8, "trace", 6, None, "warning"]))], "hr-process-stdin")
         ctx.sample({"calls": 3, "probe": "hr -p 8 -t -n 5 (plain, prefix)", "result": "the 3 records, in order"})
+        # 6. second layer: the hr command line, container detection, the record schema (lib/c17ext.py)
+        t1 = time.time()
+        c17ext.part_small(env, ctx)
+        c17ext.part_iso(env, ctx)
+        c17ext.part_argv(env, ctx, c17ext.argv_follow_up(env, ctx, env.write_log, simple_calls))
+        c17ext.part_format_direct(env, ctx)
+        c17ext.part_reader_objects(env, ctx)
+        c17ext.part_schema_written(env, ctx, env.write_log, gen_call)
+        c17ext.part_hr(env, ctx, env.write_log, simple_calls, gen_call, budget_s=20)
+        c17ext.part_process(env, ctx, env.write_log, simple_calls)
+        ctx.notes["second_layer_wall_s"] = round(time.time() - t1, 1)
     finally:
         env.close()
 
@@ -1049,6 +1068,12 @@ def replay(ctx, case):
     env = Env(ctx)
     try:
         c = case.get("case", case)
+        if c.get("kind") == "hr2":
+            return c17ext.replay_hr2(env, ctx, c, env.write_log)
+        if "plan" not in c:
+            print(json.dumps(c, indent=1)[:4000])
+            print("this case is a single call of a small function; see `what`, `impl` and `model` of the replay file")
+            return 1
         calls, plan = c["calls"], _plan_from_json(c["plan"])
         ds, _ = evaluate(env, calls, plan)
         print(json.dumps({"calls": calls, "plan": c["plan"]}, indent=1)[:4000])
